@@ -10,8 +10,9 @@ Thread.start, Event.wait, time.sleep, thread end.  The driver (main thread)
 chooses which blocked thread proceeds (its wait timing out in virtual time or
 its event having been set).
 
-Preemptive mode (`preempt.py`) adds line-level scheduling points through
-sys.settrace on whitelisted library functions.
+Preemptive mode (`preempt.py`, driver) adds line-level scheduling points through
+sys.settrace on whitelisted library functions (`Sched.trace_codes`), and
+`ShimLock` makes a contended lock acquisition a scheduling point.
 """
 from __future__ import annotations
 
@@ -59,6 +60,9 @@ class VThread:
         # polling sleepers: woken only after something else changed ("dirty")
         self.dirty = False
         self.interval: Optional[float] = None
+        # preemptive mode: parked at a line of a traced function / waiting for a shim lock
+        self.point: Optional[tuple] = None
+        self.wait_lock: Optional["ShimLock"] = None
 
     def __repr__(self) -> str:
         return f"VThread({self.name},{self.state},deadline={self.deadline})"
@@ -75,6 +79,11 @@ class Sched:
         self._seq = 0
         self.trace: List[tuple] = []
         self.preempt_hook: Optional[Callable[[], None]] = None
+        # preemptive mode (mc/preempt.py): code objects whose every line is a scheduling point, and code objects
+        # whose entry/exit is logged (to see two threads inside the same function at once)
+        self.trace_codes: set = set()
+        self.watch_codes: set = set()
+        self.frames: List[tuple] = []
 
     # ---- baton ------------------------------------------------------------
     def _switch_to(self, vt: VThread) -> None:
@@ -113,6 +122,10 @@ class Sched:
             try:
                 if not vt.abort:
                     vt.state = "running"
+                    if self.trace_codes or self.watch_codes:
+                        import sys
+
+                        sys.settrace(self._tracer)
                     target()
             except ThreadExit:
                 pass
@@ -127,6 +140,50 @@ class Sched:
         vt.real.start()
         self.trace.append(("spawn", name))
         return vt
+
+    # ---- preemptive mode: line-level scheduling points -------------------------
+    def _tracer(self, frame, event, arg):
+        code = frame.f_code
+        if code in self.watch_codes:
+            me = self.current
+            self.frames.append(("enter", me.name, code.co_name))
+
+            def local(fr, ev, a, _code=code, _me=me):
+                if ev == "line" and _code in self.trace_codes:
+                    self.preempt_point(fr)
+                elif ev == "return":
+                    self.frames.append(("exit", _me.name, _code.co_name))
+                return local
+
+            return local
+        if code in self.trace_codes:
+            return self._local
+        return None
+
+    def _local(self, frame, event, arg):
+        if event == "line":
+            self.preempt_point(frame)
+        return self._local
+
+    def preempt_point(self, frame) -> None:
+        me = self.current
+        if me.is_main or me.abort or me.state != "running":
+            return
+        me.state = "runnable"
+        me.point = (frame.f_code.co_name, frame.f_lineno)
+        self._yield_to_main()
+        me.state = "running"
+        me.point = None
+
+    def block_on_lock(self, lock: "ShimLock") -> None:
+        me = self.current
+        if me.is_main:
+            raise RuntimeError("the driver thread would block on a lock held by a parked virtual thread")
+        me.state = "blocked"
+        me.wait_lock = lock
+        self._yield_to_main()
+        me.state = "running"
+        me.wait_lock = None
 
     # ---- blocking points (called on virtual threads) -------------------------
     def block_on_event(self, ev: "ShimEvent", timeout: Optional[float]) -> bool:
@@ -177,7 +234,10 @@ class Sched:
             elif t.state == "runnable":
                 out.append(t)
             elif t.state == "blocked":
-                if t.wait_event is not None and t.wait_event._flag:
+                if t.wait_lock is not None:
+                    if t.wait_lock._owner is None:
+                        out.append(t)
+                elif t.wait_event is not None and t.wait_event._flag:
                     out.append(t)
                 elif t.deadline is not None:
                     out.append(t)
@@ -203,7 +263,9 @@ class Sched:
         assert self.current is self.main
         if vt.state == "done":
             return
-        if vt.state == "blocked":
+        if vt.state == "blocked" and vt.wait_lock is not None:
+            vt.wake_reason = "lock"
+        elif vt.state == "blocked":
             if vt.wait_event is not None and vt.wait_event._flag:
                 vt.wake_reason = "set"
             else:
@@ -281,6 +343,53 @@ class ShimEvent:
         return active().block_on_event(self, timeout)
 
 
+class ShimLock:
+    """threading.Lock / RLock for virtual threads: a contended acquire parks the thread (a scheduling point)
+    instead of blocking the OS thread that holds the baton."""
+
+    reentrant = False
+
+    def __init__(self) -> None:
+        self._owner: Optional[VThread] = None
+        self._count = 0
+
+    def acquire(self, blocking: bool = True, timeout: float = -1) -> bool:
+        s = active()
+        me = s.current
+        if self.reentrant and self._owner is me:
+            self._count += 1
+            return True
+        while self._owner is not None:
+            if not blocking:
+                return False
+            s.block_on_lock(self)
+            me = s.current
+        self._owner = me
+        self._count = 1
+        return True
+
+    def release(self) -> None:
+        if self._owner is None:
+            raise RuntimeError("release unlocked lock")
+        self._count -= 1
+        if self._count <= 0:
+            self._owner = None
+            self._count = 0
+
+    def locked(self) -> bool:
+        return self._owner is not None
+
+    def __enter__(self) -> bool:
+        return self.acquire()
+
+    def __exit__(self, *exc: Any) -> None:
+        self.release()
+
+
+class ShimRLock(ShimLock):
+    reentrant = True
+
+
 class ShimThread:
     def __init__(self, group=None, target=None, name=None, args=(), kwargs=None, *, daemon=None):
         self._target = target
@@ -308,8 +417,8 @@ class ShimThreading:
 
     Thread = ShimThread
     Event = ShimEvent
-    Lock = _real_threading.Lock
-    RLock = _real_threading.RLock
+    Lock = ShimLock
+    RLock = ShimRLock
     current_thread = staticmethod(_real_threading.current_thread)
     get_ident = staticmethod(_real_threading.get_ident)
 
